@@ -34,7 +34,18 @@ DEFINITIONAL = ["C10_cv2_dispatch", "C10_fwd_tiny_is_identity"]
 ASSUMPTIONS = ["theorems are about exact real arithmetic; binary64 rounding is covered only by the tolerance of the "
                "correspondence check on sampled inputs",
                "inputs that are not rotation matrices are outside the property",
-               "the 2.5e-5 snapping tolerance near 0 and pi and the `< eps` shortcut are numeric clauses: sampled by the oracle only"]
+               "snapping clauses: the zone next to 0 (s < 1e-5, c > 0) is proved (maps back within 2 s < 2e-5, round trip within "
+               "1e-5 (1 + 1e-5), Jacobian composition = I); next to pi only the length of the returned vector is proved -- the 2.5e-5 "
+               "map-back bound there is sampled by the oracle (measured supremum sqrt(5) s = 2.236e-5 on /repo 1246e74)",
+               "reading of 'vector to matrix to vector is the identity for |r| < pi': literally false for pi - 1e-5 < |r| < pi when the "
+               "leading axis component is negative (the vector comes back as about -r; the MATRIX still maps back within 2.5e-5): "
+               "C10_inv_of_fwd_halfturn_zone_refuted + known finding halfturn_zone_axis_flip; everywhere else the oracle demands the true round trip",
+               "binary64 behaviour of the inverse Jacobian (arccos conditioning, not a statement about the real-number model): the "
+               "composed Jacobian Jf @ Ji is off from I3 by about 4e-16/s^2 next to 0 but by 1e-3 at pi - 1e-4 and O(1) at pi - 1.1e-5; "
+               "the oracle tolerance (1e-14/s^2 for c > 0, 1e-14/s^3 for c < 0) is fitted to that, so the composition clause is "
+               "effectively not judged in floating point for angles in about (pi - 1e-4, pi - 1e-5)",
+               "the `< eps` shortcut: proved (identity returned, within |r||v| of the exact rotation); repairs named in the model are "
+               "/repo commits d47debe (clip before sqrt) and 1246e74 (half-turn signs from the symmetric part)"]
 
 EPS = 2.0 ** -52
 SMALL = 1e-5
@@ -317,7 +328,8 @@ def gen_cases(rng, n, tier):
     cases = []
     lat = 0
     for i, r in enumerate(([0.0, 0.0, np.pi], [np.pi, 0.0, 0.0], [0.0, -np.pi, 0.0], _scaled([1.0, 1.0, 1.0], np.pi),
-                           [0.0, 0.0, 3 * np.pi], _scaled([1.0, -2.0, 2.0], np.pi - 2.0 ** -20))):
+                           [0.0, 0.0, 3 * np.pi], _scaled([1.0, -2.0, 2.0], np.pi - 2.0 ** -20),
+                           [-(np.pi - 5e-6), 0.0, 0.0])):  # the last one: known finding halfturn_zone_axis_flip, every run
         cases.append({"kind": "fwd_pi", "fn": ["cv2", "r2m"][i % 2], "shape": [[3], [3, 1], [1, 3]][i % 3],
                       "data": [float(x) for x in r], "jac": True})
     for ax, off in (([1e-3, 2e-3, 1.0], 9e-6), ([2e-3, 1e-3, 1.0], 5e-6), ([1.0, -1e-3, 3e-3], 7e-6), ([3e-4, -1.0, 1e-3], 2e-6)):
@@ -382,7 +394,7 @@ def gen_cases(rng, n, tier):
                           "data": [x for row in R for x in row], "jac": jac})
         elif u < 0.845:
             # near a half-turn with TWO small axis components: the skew part s*k_l outweighs (1-c) k_i k_j in r[i,j]; the sign
-            # fix-ups must look at the symmetric part (fixes/C10-halfturn-sign-from-symmetric-part.diff)
+            # fix-ups must look at the symmetric part (/repo commit 1246e74)
             ax = [rng.choice([1, -1]) * 10 ** rng.uniform(-4, -2.5), rng.choice([1, -1]) * 10 ** rng.uniform(-4, -2.5), rng.choice([1.0, -1.0])]
             sh = rng.randrange(3)
             ax = ax[sh:] + ax[:sh]
@@ -392,7 +404,7 @@ def gen_cases(rng, n, tier):
                 continue
             cases.append({"kind": "inv_halfturn_two_small", "fn": rng.choice(["cv2", "m2r"]), "shape": [3, 3],
                           "data": R.reshape(-1).tolist(), "jac": jac, "angle": ang})
-        elif u < 0.855:
+        elif u < 0.875:
             # next to the branch switch s = 1e-5, on both sides, near 0 and near pi: judged by the 2.5e-5 clause / the amplified one
             f = rng.choice([0.9, 0.99, 0.999, 0.9999, 0.99999, 1.00001, 1.0001, 1.001, 1.01, 1.1])
             ang = math.asin(SMALL * f)
@@ -403,7 +415,7 @@ def gen_cases(rng, n, tier):
                 continue
             cases.append({"kind": "inv_threshold", "fn": rng.choice(["cv2", "m2r"]), "shape": [3, 3],
                           "data": R.reshape(-1).tolist(), "jac": jac, "angle": ang})
-        elif u < 0.87:
+        elif u < 0.885:
             cases.append({"kind": "inv_identity", "fn": rng.choice(["cv2", "m2r"]), "shape": [3, 3],
                           "data": [1.0, 0.0, 0.0, 0.0, 1.0, 0.0, 0.0, 0.0, 1.0], "jac": jac})
         else:
@@ -584,10 +596,11 @@ def oracle(c, o):
             near = s < SMALL * (1 + BAND)   # the snapping zones (and the undecidable band next to them)
             tol = 2.5e-5 if near else 2e-14 / s + 1e-13  # measured <= 16 * (1e-16/s + 1e-16); 10 x
             err = float(np.abs(rb - r).max())
-            # at a half-turn k and -k are the same rotation: only there may the sign flip
-            if near and theta > 1:
-                err = min(err, float(np.abs(rb + r).max()))
             if err > tol:
+                # known finding halfturn_zone_axis_flip (C10_inv_of_fwd_halfturn_zone_refuted): next to pi the returned axis has a
+                # non-negative first component, so about -r comes back; accepted ONLY in that zone and only as that finding
+                if near and theta > 1 and float(np.abs(rb + r).max()) <= tol:
+                    return "HALFTURN-FLIP vector -> matrix -> vector returns about -r next to pi (|rb + r| = %.3g)" % float(np.abs(rb + r).max())
                 return "vector -> matrix -> vector is not the identity for |r| < pi (error %.3g)" % err
         return None
     # inverse
@@ -621,7 +634,8 @@ def oracle(c, o):
             pass  # which branch the code takes is a rounding-level decision here; both are judged above by 2.5e-5
         elif s >= SMALL:
             # measured (4000 rotations, s 1e-5 .. 1): error <= 10.2 * (1e-16 / s^3 + 1e-15); allowed: 10 x
-            if cerr > 1e-14 / s ** 3 + 1e-13:
+            # next to 0 (c > 0) the need is ~4e-16/s^2 (second audit's measurement); next to pi it is 1e-16/s^3 (see ASSUMPTIONS)
+            if cerr > (1e-14 / s ** 2 if ang < math.pi / 2 else 1e-14 / s ** 3) + 1e-13:
                 return "inverse Jacobian composed with forward Jacobian is not the identity (error %.3g, s %.3g)" % (cerr, s)
         elif ang < 1:
             if cerr > 1e-12:   # zero zone: the literal table times the generators is exactly I
@@ -632,6 +646,12 @@ def oracle(c, o):
 
 
 def classify(c, o, failure, disagrees):
-    if failure and failure.startswith("HALFTURN-JAC") and c["jac"] and c["shape"] == [3, 3] and not disagrees:
+    if disagrees or not failure:
+        return None  # a model/implementation disagreement is never a known finding
+    if failure.startswith("HALFTURN-JAC") and c["jac"] and c["shape"] == [3, 3] and c["fn"] in ("cv2", "m2r"):
         return "halfturn_jacobian_zero"
+    if failure.startswith("HALFTURN-FLIP") and len(c["data"]) == 3 and c["fn"] in ("cv2", "r2m"):
+        theta = float(np.linalg.norm(np.array(c["data"], dtype=np.double)))
+        if 1 < theta < math.pi and abs(math.sin(theta)) < SMALL * (1 + BAND):
+            return "halfturn_zone_axis_flip"
     return None
